@@ -1,0 +1,43 @@
+// +build verif
+
+package protocol
+
+// Contracts for the verifier in /verif (comment-only; see /verif/DESIGN.md).
+// pure_fn / nonnil_fn state what is assumed of the configured hasher factory:
+// calling it changes nothing the caller can observe and it returns a hasher.
+
+/*@
+func ToBalloonProof
+  props C02 C12 C13
+  requires mr != nil
+  requires hasherF != nil && pure_fn(hasherF) && nonnil_fn(hasherF)
+  ensures result != nil && fresh(result)
+  ensures C13/fields: result.Exists == mr.Exists && result.CurrentVersion == mr.CurrentVersion && result.QueryVersion == mr.QueryVersion && result.ActualVersion == mr.ActualVersion
+  ensures C13/key: result.KeyDigest == mr.KeyDigest
+  ensures C02,C13/history-index: result.HistoryProof != nil && result.HistoryProof.Index == mr.ActualVersion && result.HistoryProof.Version == mr.QueryVersion
+  ensures C02,C13/hyper-key: result.HyperProof != nil && bytes(result.HyperProof.Key) == bytes(mr.KeyDigest) && result.HyperProof.AuditPath == mr.Hyper
+  ensures C12/value-length: len(result.HyperProof.Value) == int(hashlen_fn(hasherF))
+
+func ToIncrementalProof
+  props C03 C12 C13
+  requires ir != nil
+  requires hasherF != nil && pure_fn(hasherF) && nonnil_fn(hasherF)
+  ensures result != nil && fresh(result)
+  ensures C13/fields: result.Start == ir.Start && result.End == ir.End
+  ensures !isnil(result.Hasher)
+
+func ToMembershipResult
+  props C13
+  requires mp != nil && mp.HyperProof != nil
+  modifies everything
+  ensures result != nil && fresh(result)
+  ensures C13/fields: result.Exists == mp.Exists && result.CurrentVersion == mp.CurrentVersion && result.QueryVersion == mp.QueryVersion && result.ActualVersion == mp.ActualVersion
+  ensures C13/key: result.KeyDigest == mp.KeyDigest && result.Hyper == mp.HyperProof.AuditPath
+
+func ToIncrementalResponse
+  props C13
+  requires proof != nil
+  modifies everything
+  ensures result != nil && fresh(result)
+  ensures C13/fields: result.Start == proof.Start && result.End == proof.End
+@*/
